@@ -34,6 +34,8 @@ def _drop_scalar(sc, name):
 
 def reductions(sc):
     """yield (name, candidate) pairs, simplest-first within each group"""
+    if sc.get("world", "roms") != "roms" or "grid" not in sc:
+        return      # analytic worlds have their own reductions (oracle module)
     rows = sc["release"]["rows"]
     n = len(rows)
     # --- release rows
